@@ -91,6 +91,22 @@ type solveOpts struct {
 
 // discharge decides one obligation.
 func discharge(o *Obligation, idx int, opt solveOpts) {
+	// stage 0: safety obligations are usually decided by a handful of local facts
+	if !o.ExpectSat && (o.Kind == "nopanic" || o.Kind == "pre") {
+		tq := o.queryMode(false, true)
+		tf := filepath.Join(opt.tmp, fmt.Sprintf("t%05d.smt2", idx))
+		if os.WriteFile(tf, []byte(tq), 0o644) == nil {
+			r := raceSolvers(tf, []solverSpec{solvers[0], solvers[1]}, 1, opt.seed)
+			if !opt.keep {
+				os.Remove(tf)
+			}
+			o.Time += r.time
+			if r.status == "unsat" {
+				o.Status, o.Solver = "proved", r.solver+"(tight)"
+				return
+			}
+		}
+	}
 	q := o.query(false)
 	if len(q) > 4<<20 {
 		o.Status, o.Output = "failed", fmt.Sprintf("cap: query of %d bytes exceeds 4 MB", len(q))
@@ -105,6 +121,22 @@ func discharge(o *Obligation, idx int, opt solveOpts) {
 		defer os.Remove(file)
 	}
 	useCvc5 := !strings.Contains(q, "(lambda")
+	if o.ExpectSat {
+		// reachability covers are satisfiability questions: a short budget; an
+		// inconclusive answer is reported as such and never as a failure
+		r := raceSolvers(file, []solverSpec{solvers[0], solvers[1]}, 2, opt.seed)
+		o.Time += r.time
+		o.Solver = r.solver
+		switch r.status {
+		case "unsat":
+			o.Status = "proved"
+		case "sat":
+			o.Status, o.Output = "failed", "sat"
+		default:
+			o.Status, o.Output = "unknown", r.status
+		}
+		return
+	}
 	// first: the two z3 versions race with a short budget (most goals take
 	// milliseconds on one of them)
 	first := raceSolvers(file, []solverSpec{solvers[0], solvers[1]}, 2, opt.seed)
